@@ -66,7 +66,8 @@ type World struct {
 	Observers []*Observer
 	Model     *ModelTracker
 
-	skew map[string]int64 // per-actor clock skew
+	skew       map[string]int64 // per-actor clock skew
+	commitSeen map[string]string
 
 	// oracle switches (set by the profile)
 	CheckFold       bool // C01
@@ -79,7 +80,7 @@ type World struct {
 
 // NewWorld builds the actors for a plan.
 func NewWorld(p *Plan, pool *Pool, t *core.Trace) *World {
-	w := &World{Plan: p, Pool: pool, T: t, Prop: p.Property, skew: map[string]int64{}}
+	w := &World{Plan: p, Pool: pool, T: t, Prop: p.Property, skew: map[string]int64{}, commitSeen: map[string]string{}}
 	s := &p.Swarm
 	w.Proto = protocol.Protocol{
 		GenesisTime:            s.GenesisTime,
@@ -188,6 +189,9 @@ func (w *World) violate(oracle, witness, format string, a ...any) {
 
 // Run executes the world steps of the plan.
 func (w *World) Run() {
+	if w.CheckIntake {
+		w.builderRefusals()
+	}
 	for i := range w.Plan.Steps {
 		w.step = i
 		st := &w.Plan.Steps[i]
@@ -228,6 +232,8 @@ func (w *World) Run() {
 			}
 		case SCompose:
 			w.execCompose(st)
+		case SCall:
+			w.execCall(st)
 		default:
 			w.T.Event("unknown step kind %q ignored", st.Op)
 		}
